@@ -240,7 +240,26 @@ def behaviours_json_content_types() -> List[Dict[str, Any]]:
     return bs
 
 
-BEHAVIOURS = behaviours() + behaviours_error_objects() + behaviours_json_content_types()
+INVALID_ITEMS = ["no-result-no-error", "both-result-and-error", "error-not-an-object",
+                 "scalar", "null", "string", "id-is-an-object"]
+INVALID_POSITIONS = ["single", "only-member-of-a-batch", "first-of-a-batch", "last-of-a-batch"]
+
+
+def behaviours_invalid_items() -> List[Dict[str, Any]]:
+    """2xx answers whose body is well-formed JSON but (partly) not a JSON-RPC message."""
+    return [{"status": 200, "ctype": ct, "body": f"invalid:{k}:{pos}", **({"enc": "canonical"} if ct == "sse" else {})}
+            for k in INVALID_ITEMS for pos in INVALID_POSITIONS for ct in ("json", "sse")]
+
+
+def invalid_item(kind: str, rid: Any) -> Any:
+    j = {"jsonrpc": "2.0", "id": rid if rid is not None else "srv-x"}
+    return {"no-result-no-error": j, "both-result-and-error": {**j, "result": {}, "error": {"code": -32000, "message": "x"}},
+            "error-not-an-object": {**j, "error": "boom"}, "error-code-not-an-integer": {**j, "error": {"code": "E1", "message": "x"}},
+            "empty-object": {}, "scalar": 17, "null": None, "string": "pong",
+            "id-is-an-object": {"jsonrpc": "2.0", "id": {"v": 1}, "result": {}}}[kind]
+
+
+BEHAVIOURS = behaviours() + behaviours_error_objects() + behaviours_json_content_types() + behaviours_invalid_items()
 OK_B = {"status": 200, "ctype": "json", "body": "resp"}
 CT = {"json": "application/json", "sse": "text/event-stream", "text": "text/plain; charset=utf-8"}
 
@@ -259,6 +278,16 @@ def render(b: Dict[str, Any], rid: Any) -> Tuple[bytes, Optional[str]]:
     ctype = CT.get(b["ctype"])
     if body == "empty":
         return b"", ctype
+    if body.startswith("invalid:"):
+        _, kind, pos = body.split(":")
+        item = invalid_item(kind, rid)
+        good = body_messages("resp", rid)[0]
+        doc = {"single": item, "only-member-of-a-batch": [item], "first-of-a-batch": [item, good],
+               "last-of-a-batch": [good, item]}[pos]
+        text = json.dumps(doc, ensure_ascii=False)
+        if b["ctype"] == "sse":
+            return f"event: message\ndata: {text}\n\n".encode("utf-8"), ctype
+        return text.encode("utf-8"), ctype
     if b["ctype"] == "sse" or b.get("sse_text"):
         if body == "truncated":
             return b'event: message\ndata: {"jsonrpc":"2.0","id":\n\n', ctype
